@@ -3,7 +3,7 @@
 import json, os, sys, glob
 V = os.path.dirname(os.path.dirname(os.path.abspath(__file__)))
 rows = {}
-for f in ("RESULTS_manual.tsv", "RESULTS_rest.tsv", "RESULTS_r2.tsv"):
+for f in ("RESULTS_manual.tsv", "RESULTS_rest.tsv", "RESULTS_r2.tsv", "RESULTS_r3.tsv", "RESULTS_r3b.tsv"):
     p = os.path.join(V, "seeded", f)
     if not os.path.exists(p): continue
     for l in open(p):
